@@ -254,8 +254,16 @@ def _reduction_apps(exprs):
     return out
 
 
-def _finite_instance(a, N):
-    """the meaning of a binder application when its array has exactly M entries (finite sums etc.)"""
+def _int_consts(e, acc):
+    if z3.is_const(e) and e.decl().kind() == z3.Z3_OP_UNINTERPRETED and e.sort() == z3.IntSort():
+        acc[e.get_id()] = e
+    for c in e.children():
+        _int_consts(c, acc)
+
+
+def _finite_instance(a, N, env=None):
+    """the meaning of a binder application when its array length is concrete.  `env` maps the free integer
+    constants occurring in length terms to the value N, so that lengths like n, n-1, T-1 become numerals."""
     name = a.decl().name()
     li, ni = _lam_arg(a)
     lam = a.arg(li)
@@ -263,9 +271,11 @@ def _finite_instance(a, N):
     side = []
     if ni is not None:
         n = a.arg(ni)
+        if env:
+            n = z3.simplify(z3.substitute(n, *env))
         if z3.is_int_value(n):
             M = n.as_long()
-            if M > 16:
+            if M > 16 or M < 0:
                 return None
         else:
             side.append(n == N)
@@ -284,9 +294,9 @@ def _finite_instance(a, N):
     elif name == "CumSum":
         i = a.arg(1)
         exp = z3.RealVal(0)
-        for k in range(M - 1, -1, -1):  # sum_{k<=i} over the first M entries
-            exp = z3.If(i >= k, z3.Sum(elems[: k + 1]) if k > 0 else elems[0], exp) if k == M - 1 else z3.If(i == k, z3.Sum(elems[: k + 1]) if k > 0 else elems[0], exp)
-        side.append(z3.And(i >= 0, i < M) if M else z3.BoolVal(True))
+        for k in range(M - 1, -1, -1):
+            part = z3.Sum(elems[: k + 1]) if k > 0 else elems[0]
+            exp = z3.If(i >= k, part, exp) if k == M - 1 else z3.If(i == k, part, exp)
     elif name == "SearchSortedLeft":
         v = a.arg(2)
         exp = z3.Sum([z3.If(e < v, 1, 0) for e in elems]) if M > 1 else (z3.If(elems[0] < v, 1, 0) if M == 1 else z3.IntVal(0))
@@ -329,9 +339,16 @@ def _bounded_refute(pc, goal, timeout_ms):
     forms = list(pc) + [z3.Not(goal)]
     if not _reduction_apps(forms):
         return None
-    for N in (1, 2, 3):
+    # free integer constants occurring in array-length positions get the value N
+    len_consts = {}
+    for a in _reduction_apps(forms):
+        ni = _lam_arg(a)[1]
+        if ni is not None:
+            _int_consts(a.arg(ni), len_consts)
+    for N in (1, 2, 3, 4):
+        env = [(c, z3.IntVal(N)) for c in len_consts.values()]
         fs = list(forms)
-        side = []
+        side = [c == N for c in len_consts.values()]
         ok = True
         for _ in range(24):
             apps = _top_level_apps(fs)
@@ -339,7 +356,7 @@ def _bounded_refute(pc, goal, timeout_ms):
                 break
             subs = []
             for a in apps:
-                r = _finite_instance(a, N)
+                r = _finite_instance(a, N, env)
                 if r is None:
                     ok = False
                     break
